@@ -12,3 +12,28 @@ def mk_humdrum_importer(g):
 
 def mk_humdrum_exporter(g):
     return g.new(HumdrumPitchExporter, {'pitch': None}, ())
+
+
+from kernpy.core.gkern import (PositionInStaff, PitchPositionReferenceSystem, DiatonicPitch, GClef, F3Clef, F4Clef, C1Clef,
+                               C2Clef, C3Clef, C4Clef)
+
+CLEF_CLASSES = [GClef, F3Clef, F4Clef, C1Clef, C2Clef, C3Clef, C4Clef]
+
+
+def mk_clef(g, cls):
+    # the decorative fields (diatonic_pitch, on_line) are not read by the position computation
+    return g.new(cls, {'diatonic_pitch': None, 'on_line': None}, ())
+
+
+def mk_position(g, ls):
+    return g.new(PositionInStaff, {'line_space': ls}, (ls,))
+
+
+def mk_refsys(g, base):
+    return g.new(PitchPositionReferenceSystem, {'base_pitch': base}, (base,))
+
+
+
+def mk_spine_importer(g, cls):
+    # import_listener / error_listener of the outer importer are never read by the non-kern import_token bodies
+    return g.new(cls, {'import_listener': None, 'error_listener': None}, ())
